@@ -103,10 +103,10 @@ def one_case(ctx, k):
             ctx.violation("reference-format", f"reference run wrote {R1[0]} to ref1.fastq", case)
             return
 
-        def variant(label, argv, outs, expect_fmt="fastq", names_seqs_only=False, stdout_name=None):
+        def variant(label, argv, outs, expect_fmt="fastq", names_seqs_only=False, stdout_name=None, stdin_path=None):
             R1, R2 = ref_holder
             """outs: list of (path, which_mate or 'interleaved')."""
-            run = climon.run(d, argv, tag="v" + label.replace("/", "_").replace(" ", "_")[:40], trace=False)
+            run = climon.run(d, argv, tag="v" + label.replace("/", "_").replace(" ", "_")[:40], trace=False, stdin_path=stdin_path)
             ctx.case((str(base), fq1[:200], label))
             ctx.count("variant:" + label.split("=")[0])
             v = lambda kind, text: ctx.violation(kind, f"variant [{label}] argv={argv}: {text}", dict(case, variant=label, vargv=argv), facts=dict(variant=label.split("=")[0]), klass=label.split("=")[0] + kind)
@@ -193,6 +193,14 @@ def one_case(ctx, k):
             variant("--fasta name=.txt", base + ["--fasta", "-o", "ff.txt"] + ins, [("ff.txt", 1)])
             variant("--fasta name=.dat.gz", base + ["--fasta", "-o", "ff.dat.gz"] + ins, [("ff.dat.gz", 1)])
             variant("--fasta name=.fastq cores=2", base + ["--fasta", "-j", "2", "-o", "ff.fastq"] + ins, [("ff.fastq", 1)])
+            # input from standard input, one and two cores
+            variant("input=stdin", base + ["-o", "si1.fastq", "-"], [("si1.fastq", 1)], stdin_path=os.path.join(d, "in1.fastq"))
+            variant("input=stdin cores=2", base + ["-j", "2", "--buffer-size", "2000", "-o", "si2.fastq", "-"], [("si2.fastq", 1)],
+                    stdin_path=os.path.join(d, "in1.fastq"))
+        # --- compression level does not change the content
+        lvl = rng.choice(["1", "5", "9"])
+        argv = base + ["--compression-level", lvl, "-o", "cl1.fastq.gz"] + (["-p", "cl2.fastq.gz"] if paired else []) + ins
+        variant(f"compression-level={lvl}", argv, [("cl1.fastq.gz", 1)] + ([("cl2.fastq.gz", 2)] if paired else []))
         # --- layout
         if paired:
             inter = fastx.format_fastq([x for pair in zip(b["recs1"], b["recs2"]) for x in pair])
